@@ -294,3 +294,10 @@ package bt
 //@   requires (=> (not (nil? fees)) (spec.wf_quote fees))
 //@   requires (<= (. size TotalStdBytes) 2199023255552) (<= (. size TotalDataBytes) 2199023255552)
 //@   ensures[C11.fees_formula] (=> (= err nil) (and (not (nil? result)) (= (. result StdFeePaid) (spec.fee_of (old (. size TotalStdBytes)) (spec.fee_sat fees "standard") (spec.fee_bytes fees "standard"))) (= (. result DataFeePaid) (spec.fee_of (old (. size TotalDataBytes)) (spec.fee_sat fees "data") (spec.fee_bytes fees "data"))) (= (. result TotalFeePaid) (+ (. result StdFeePaid) (. result DataFeePaid)))))
+// serialisers build new byte strings and write nothing that existed before (checked against the write analysis)
+//@ func bt.(*Tx).Size
+//@   pure
+//@ func bt.(*Tx).Bytes
+//@   pure
+//@ func bt.(*Tx).toBytesHelper
+//@   pure
